@@ -321,8 +321,8 @@ func (cfg *config) printCfg(w io.Writer, skipComments, skipVer, annot bool) {
 	}
 
 	for _, title := range cfg.titleStrings {
-		if title == "" {
-			// Empty after preprocessing: there is no syntax for it.
+		if strings.TrimSpace(title) == "" {
+			// Empty (or blank) after preprocessing: there is no syntax for it.
 			continue
 		}
 		fmt.Fprintln(w, fkw("title"), escapeNl(title))
@@ -331,7 +331,7 @@ func (cfg *config) printCfg(w io.Writer, skipComments, skipVer, annot bool) {
 		fmt.Fprintln(w, fkw("author"), escapeNl(author))
 	}
 	for _, seeAlso := range cfg.seeAlso {
-		if seeAlso == "" {
+		if strings.TrimSpace(seeAlso) == "" {
 			continue
 		}
 		fmt.Fprintln(w, fkw("attention"), escapeNl(seeAlso))
@@ -370,7 +370,7 @@ func (cfg *config) printCfg(w io.Writer, skipComments, skipVer, annot bool) {
 		for _, an := range cfg.actorNames {
 			a := cfg.actors[an]
 			fmt.Fprintf(w, "  %s %s %s", fan(a.name), fkw("plays"), frn(a.role.name))
-			if a.extraEnv != "" {
+			if strings.TrimSpace(a.extraEnv) != "" {
 				fmt.Fprintf(w, " %s %s", fkw("with"), fsh(a.extraEnv))
 			}
 			fmt.Fprintln(w)
